@@ -1,0 +1,37 @@
+//go:build verif && linux && amd64
+
+package transforms32
+
+import (
+	"image"
+
+	cpu "github.com/klauspost/cpuid/v2"
+)
+
+// VerifAsmAvailable reports whether this CPU can run the assembly kernels.
+func VerifAsmAvailable() bool {
+	return cpu.CPU.Supports(cpu.AVX, cpu.AVX2, cpu.SSE, cpu.SSE2, cpu.SSE4)
+}
+
+// VerifUsePlatform restores the kernel selection made at start-up.
+func VerifUsePlatform() {
+	VerifUseGo()
+	if VerifAsmAvailable() {
+		FlagUseASM = true
+		ForwardDCT256 = asmForwardDCT256
+		ForwardDCT64 = asmForwardDCT64
+		YCbCrToGray = AsmYCbCrToGray
+	}
+}
+
+// VerifForwardDCT64Asm runs the assembly 64-point kernel in place.
+func VerifForwardDCT64Asm(x []float32) { asmForwardDCT64(x) }
+
+// VerifForwardDCT256Asm runs the assembly 256-point kernel in place.
+func VerifForwardDCT256Asm(x []float32) { asmForwardDCT256(x) }
+
+// VerifDCT2DHash64Asm runs the assembly 64x64 two-dimensional kernel.
+func VerifDCT2DHash64Asm(x []float32) [64]float32 { return asmDCT2DHash64(x) }
+
+// VerifYCbCrToGrayAsm runs the assembly YCbCr-to-gray conversion.
+func VerifYCbCrToGrayAsm(img *image.YCbCr, pixels []float32) { AsmYCbCrToGray(img, pixels) }
